@@ -23,7 +23,7 @@ for pid in props:
         "thorough_cmd": f"./check {pid} --tier thorough",
         "evidence_file": f"/verif/evidence/{pid}.json",
         "replay_cmd_template": f"./check {pid} --replay {{path}}",
-        "engine": m.get("engine", entry["flavour"]),
+        "engine": m.get("engine", entry.get("flavour", "multi-stage")),
         "level_claimed": {"category": m["level_category"], "text": m["level_text"], "design_ref": m.get("design_ref", f"DESIGN.md section 4 {pid}")},
         "level_note": m["level_note"],
         "technique": m["technique"],
